@@ -17,6 +17,7 @@ EXPLANATION = (
     "the selection predicate of each filter equals its documented predicate (normal-form terms; side predicates as decision tables); row-locality: only the "
     "iteration-index filters use a frame-level reduction; no filter keeps call-to-call state (no attribute store in __call__); CompositeFilter threads the frame "
     "through its members in order with the symbol table; the string-column test uses a dtype idiom that accepts every pandas string dtype."
+    " Later additions: the table passed with the frame takes precedence over a table held by the filter."
 )
 TF = "hta.common.trace_filter"
 ROW_CHANGING = {"sort", "reset_index", "set_index", "concat", "join", "drop_duplicates", "row-subset", "drop-rows", "dropna", "melt", "groupby-agg", "rename", "drop-columns", "take"}
